@@ -314,6 +314,8 @@ def unknown_sets(simtype: str, dim: int) -> list:
         return unknown_sets("Elastic", dim)
     if simtype == "WeakForms":
         return [["u"]]
+    if simtype == "WeakFormsV":
+        return unknown_sets("Elastic", dim)
     return []
 
 
@@ -346,3 +348,47 @@ def values_for(spec, n_nodes: int, n_unknowns: int) -> list:
     rng = arr_rng(spec["aseed"], 7)
     s = spec.get("scale", 1.0)
     return [np.round(rng.uniform(-1, 1, n_nodes) * s, 6) for _ in range(n_unknowns)]
+
+
+NONLINEAR = ("HyperElastic", "InElastic")
+
+
+def get_extra(sim, simtype: str) -> dict:
+    """State beyond (u, v, a): committed internal variables / history field (copies)."""
+    if simtype == "InElastic":
+        return {
+            "zOld": {k: np.array(v) for k, v in getattr(sim, "_InElastic__zOld").items()},
+            "z": {k: np.array(v) for k, v in getattr(sim, "_InElastic__z").items()},
+            "dt": sim.dt,
+        }
+    if simtype == "PhaseField":
+        return {
+            "H": np.array(getattr(sim, "_PhaseField__old_psiP_e_pg")),
+            "psiP": np.array(getattr(sim, "_PhaseField__psiP_e_pg")),
+        }
+    return {}
+
+
+def set_extra(sim, simtype: str, ex: dict) -> None:
+    from EasyFEA.FEM import FeArray
+
+    if simtype == "InElastic":
+        setattr(sim, "_InElastic__zOld", {k: FeArray.asfearray(v.copy()) for k, v in ex["zOld"].items()})
+        setattr(sim, "_InElastic__z", {k: FeArray.asfearray(v.copy()) for k, v in ex["z"].items()})
+        sim.dt = ex["dt"]
+    elif simtype == "PhaseField":
+        H = ex["H"].copy()
+        setattr(sim, "_PhaseField__old_psiP_e_pg", FeArray.asfearray(H) if H.ndim >= 2 else H)
+        P = ex["psiP"].copy()
+        setattr(sim, "_PhaseField__psiP_e_pg", FeArray.asfearray(P) if P.ndim >= 2 else P)
+
+
+def solve(sim, simtype: str):
+    if simtype == "PhaseField":
+        return sim.Solve(tolConv=0.5, maxIter=6)
+    return sim.Solve()
+
+
+def is_nonconvergence(exc: BaseException) -> bool:
+    m = str(exc)
+    return isinstance(exc, AssertionError) and ("did not converge" in m or "det(F)" in m or "reduce the load step" in m)
